@@ -162,7 +162,7 @@ func (r *rw) premark(f *ast.File) {
 						r.marks[x] = "venv:" + v
 					} else if v, ok := venvMethodRedirect[full]; ok && !inVenv {
 						r.marks[x] = "venvm:" + v
-					} else if v, ok := localRedirect[r.p.PkgPath][full]; ok {
+					} else if v, ok := localRedirect[r.p.PkgPath][full]; ok && !strings.HasPrefix(filepath.Base(r.fset.Position(f.Pos()).Filename), "zz_verif_") {
 						r.marks[x] = "local:" + v
 					}
 				}
